@@ -3,6 +3,7 @@
 
 mod common;
 mod props;
+mod script;
 
 use common::{Ctx, Tier};
 
